@@ -99,7 +99,8 @@ func (ch c20) queries(c *core.Ctx) []string {
 		qs = append(qs, "values ("+strings.Repeat("?, ", n)+"?)", strings.Repeat("?", n))
 	}
 	qs = append(qs, "$65535 ?", "? $65535", "select $65536, $2", "select $1, $99999999999999999999, $5", "select $4294967296 $3 $65537 $7", "select $70000 $65535", "$65534 ? ?", "$65535 $65535 ? ? ?", strings.Repeat("?", 65535), strings.Repeat("?", 65536), "$1 "+strings.Repeat("?", 65535))
-	qs = append(qs, "", "$", "$$", "$$ $1 $$", "?", "??", "$1$2", "$1a", "$a1", "'$1'", "\"?\"", "$-1", "$+1", "$ 1", "$１", "ü$1é?", "$1?$2?", strings.Repeat("?", 70000), strings.Repeat("$1 ", 30000), strings.Repeat("$", 5000)+"7")
+	qs = append(qs, "a = ? AND b = ?0", "?1", "?0?1?2", "select ?9999, ?", "x ?65535", "?1 $1", "$2 ?1",
+		"", "$", "$$", "$$ $1 $$", "?", "??", "$1$2", "$1a", "$a1", "'$1'", "\"?\"", "$-1", "$+1", "$ 1", "$１", "ü$1é?", "$1?$2?", strings.Repeat("?", 70000), strings.Repeat("$1 ", 30000), strings.Repeat("$", 5000)+"7")
 	// more marker occurrences than the parameter limit, the highest index first seen late
 	qs = append(qs, strings.Repeat("$1 ", 70000)+"$3", strings.Repeat("$2,$1,", 40000)+"$7", "$5 "+strings.Repeat("$1 ", 65535),
 		strings.Repeat("$1 ", 65534)+"$2", strings.Repeat("$1 ", 65535)+"$2", strings.Repeat("$1 ", 65536)+"$2", strings.Repeat("$1 ", 65536)+"$65535",
@@ -116,7 +117,7 @@ func (ch c20) queries(c *core.Ctx) []string {
 		at := rng.Intn(len(q)/len(unit)+1) * len(unit)
 		qs = append(qs, q[:at]+fmt.Sprintf("$%d ", 5+rng.Intn(60))+q[at:])
 	}
-	frag := []string{"select ", "from t ", "where a=", " and ", "'", "\"", "$$", "$x", "$1a", "ü", "😀", "?", "?", "$", "-- c\n", "/*", "*/", "::int", "\\", ";", "\n", "||", "|", "&", "?|", "?&", "?||' '||?", "@>", "#", "?::int", "(?)", "[?]"}
+	frag := []string{"select ", "from t ", "where a=", " and ", "'", "\"", "$$", "$x", "$1a", "ü", "😀", "?", "?", "$", "-- c\n", "/*", "*/", "::int", "\\", ";", "\n", "||", "|", "&", "?|", "?&", "?||' '||?", "@>", "#", "?::int", "(?)", "[?]", "?1", "?0", "?12 ", "?9999", "?007", "?1?2"}
 	for i := 0; i < nrand; i++ {
 		var sb strings.Builder
 		for n := 1 + rng.Intn(12); n > 0; n-- {
